@@ -49,7 +49,7 @@ theorem setupChain_af (P : Project) (g : G) (cfg : Cfg) (s : Sess) (t : TaskSpec
 
 theorem setupChain_exec (P : Project) (g : G) (cfg : Cfg) (s : Sess) (t : TaskSpec) (r : Raised)
     (h : setupChain P g cfg s t Generated.setupOrder = r) (hr : r = .none ∨ r = .error) :
-    skipRes s t = .none ∧ persistRes P g s.w t = .none ∧ execRes P g cfg.force s.wbeMarks s.w t = r := by
+    skipRes s t = .none ∧ persistRes P g s.wbeMarks s.w t = .none ∧ execRes P g cfg.force s.wbeMarks s.w t = r := by
   rcases setupChain_cases P g cfg s t with ⟨hne, h'⟩ | ⟨_, _, h'⟩ | ⟨h1, h2, h'⟩
   · rw [h'] at h
     rcases skipRes_range s t with e | e | e
@@ -78,41 +78,45 @@ theorem hasChanged_congr {w1 w2 : World} {t v : Nat} (st : Option Nat)
     (h : lookup w1.db (tv t, v) = lookup w2.db (tv t, v)) : hasChanged w1 t v st = hasChanged w2 t v st := by
   unfold hasChanged; rw [h]
 
-theorem persistRes_persisted_iff (P : Project) (g : G) (w : World) (t : TaskSpec) :
-    persistRes P g w t = .persisted ↔
-      t.persist = true ∧ (∀ v, v ∈ neighbours g t.id → (stateOf P w v).isSome = true) ∧
+theorem persistRes_persisted_iff (P : Project) (g : G) (wbe : List Nat) (w : World) (t : TaskSpec) :
+    persistRes P g wbe w t = .persisted ↔
+      (t.persist = true ∧ t.id ∉ wbe) ∧ (∀ v, v ∈ neighbours g t.id → (stateOf P w v).isSome = true) ∧
       ∃ v, v ∈ neighbours g t.id ∧ hasChanged w t.id v (stateOf P w v) = true := by
   unfold persistRes
   rw [zip_map_any]
   simp only []
-  by_cases hp : t.persist = true
-  · simp only [hp, if_true, true_and]
+  cases hp : (t.persist && !wbe.contains t.id)
+  · have hp' : ¬ (t.persist = true ∧ t.id ∉ wbe) := by simpa using hp
+    simp only [Bool.false_eq_true, if_false]
+    constructor
+    · intro h; cases h
+    · rintro ⟨h, _⟩; exact absurd h hp'
+  · have hp' : t.persist = true ∧ t.id ∉ wbe := by simpa using hp
+    simp only [if_true]
     by_cases hall : ((neighbours g t.id).map (stateOf P w)).all (·.isSome) = true
     · have hall' : ∀ v, v ∈ neighbours g t.id → (stateOf P w v).isSome = true := by
         simpa [List.all_eq_true] using hall
       simp only [hall, if_true]
       by_cases hany : (neighbours g t.id).any (fun v => hasChanged w t.id v (stateOf P w v)) = true
-      · simp only [hany, if_true, true_iff]
-        exact ⟨hall', by simpa [List.any_eq_true] using hany⟩
+      · simp only [hany, if_true]
+        constructor
+        · intro _; exact ⟨hp', hall', by simpa [List.any_eq_true] using hany⟩
+        · intro _; trivial
       · simp only [hany, Bool.false_eq_true, if_false]
         constructor
         · intro h; cases h
-        · rintro ⟨_, v, hv, hc⟩
+        · rintro ⟨_, _, v, hv, hc⟩
           exact absurd (List.any_eq_true.2 ⟨v, hv, hc⟩) hany
     · simp only [hall, Bool.false_eq_true, if_false]
       constructor
       · intro h; cases h
-      · rintro ⟨h, _⟩
+      · rintro ⟨_, h, _⟩
         apply absurd _ hall
         simpa [List.all_eq_true] using h
-  · simp only [hp, Bool.false_eq_true, if_false, false_and]
-    constructor
-    · intro h; cases h
-    · intro h; cases h
 
-theorem persistRes_congr {P : Project} {g : G} {w1 w2 : World} {t : TaskSpec} (h : Agree P g w1 w2 t.id) :
-    persistRes P g w1 t = persistRes P g w2 t := by
-  have key : ∀ w1 w2, Agree P g w1 w2 t.id → persistRes P g w1 t = .persisted → persistRes P g w2 t = .persisted := by
+theorem persistRes_congr {P : Project} {g : G} {wbe : List Nat} {w1 w2 : World} {t : TaskSpec} (h : Agree P g w1 w2 t.id) :
+    persistRes P g wbe w1 t = persistRes P g wbe w2 t := by
+  have key : ∀ w1 w2, Agree P g w1 w2 t.id → persistRes P g wbe w1 t = .persisted → persistRes P g wbe w2 t = .persisted := by
     intro w1 w2 h hp
     rw [persistRes_persisted_iff] at hp ⊢
     obtain ⟨h1, h2, v, hv, hc⟩ := hp
@@ -120,11 +124,18 @@ theorem persistRes_congr {P : Project} {g : G} {w1 w2 : World} {t : TaskSpec} (h
     rw [← (h v hv).1, ← hasChanged_congr _ (h v hv).2]
     exact hc
   have hsymm : Agree P g w2 w1 t.id := fun v hv => ⟨(h v hv).1.symm, (h v hv).2.symm⟩
-  rcases persistRes_range P g w1 t with h1 | h1 <;> rcases persistRes_range P g w2 t with h2 | h2
+  rcases persistRes_range P g wbe w1 t with h1 | h1 <;> rcases persistRes_range P g wbe w2 t with h2 | h2
   · rw [h1, h2]
   · rw [key w1 w2 h h1] at h2; cases h2
   · rw [key w2 w1 hsymm h2] at h1; cases h1
   · rw [h1, h2]
+
+theorem persistRes_wbe_irrel {P : Project} {g : G} {wbe : List Nat} {w : World} {t : TaskSpec} (h : t.id ∉ wbe) :
+    persistRes P g wbe w t = persistRes P g [] w t := by
+  have hc : wbe.contains t.id = false := by simpa using h
+  unfold persistRes
+  rw [hc]
+  simp only [List.contains_nil]
 
 theorem scan_congr {P : Project} {g : G} {w1 w2 : World} {t : Nat} :
     ∀ (l : List Nat) (needs : Bool),
@@ -191,8 +202,7 @@ theorem superset_key {F : BodyFn} {P : Project} {g : G} {marks : List Nat} {w : 
     (hD : buildLoop F P g cfgD so s0 dp = .ok (soD, sD))
     (hR : buildLoop F P g cfgR so s0 rp = .ok (soR, sR))
     (hcomplete : soD.isActive = false)
-    (wf : ∀ t, t ∈ P.tasks → ∀ u, u ∈ P.tasks → t.src ∉ u.prods)
-    (hpers : cfgR.force = true → ∀ t, t ∈ P.tasks → t.persist = false) :
+    (wf : ∀ t, t ∈ P.tasks → ∀ u, u ∈ P.tasks → t.src ∉ u.prods) :
     ∀ (n : Nat) (pre : List Nat) (t : Nat) (post : List Nat), rp = pre ++ t :: post → pre.length = n → Q sD sR t := by
   have z1 : s0.reports = [] := by rw [hs0]
   have z2 : s0.log = [] := by rw [hs0]
@@ -416,7 +426,7 @@ theorem superset_key {F : BodyFn} {P : Project} {g : G} {marks : List Nat} {w : 
   · -- Q2
     intro h
     have hfm_or : spec.id ∈ sd1.failMarks ∨
-        (skipRes sd1 spec = .none ∧ persistRes P g sd1.w spec = .none ∧
+        (skipRes sd1 spec = .none ∧ persistRes P g sd1.wbeMarks sd1.w spec = .none ∧
           execRes P g cfgD.force sd1.wbeMarks sd1.w spec = .error) := by
       by_cases hne : setupChain P g cfgD sd1 spec Generated.setupOrder = .none
       · rcases h with h | h <;> (have h' := H2d _ h; rw [(e2 hne hdry).1] at h'; simp at h')
@@ -441,7 +451,8 @@ theorem superset_key {F : BodyFn} {P : Project} {g : G} {marks : List Nat} {w : 
           simp [hin] at hxD
         have hag := DI hnw
         rw [hw1] at hpD hxD
-        have hpR : persistRes P g s1.w spec = .none := by rw [persistRes_congr (hid ▸ hag)]; exact hpD
+        have hpR : persistRes P g s1.wbeMarks s1.w spec = .none := by
+          rw [hwbeR, persistRes_congr (hid ▸ hag), ← persistRes_wbe_irrel hnw]; exact hpD
         have hxR : execRes P g cfgR.force s1.wbeMarks s1.w spec = .error := by
           unfold execRes at hxD ⊢
           have hnw' : sd1.wbeMarks.contains spec.id = false := by simpa using hnw
@@ -490,36 +501,13 @@ theorem superset_key {F : BodyFn} {P : Project} {g : G} {marks : List Nat} {w : 
         · rw [SK e] at hskR; cases hskR
         · exact absurd hskR (FL (skipRes_af sd1 spec e))
         · exact absurd e hne
-      · -- the dry run wants to persist `t`
+      · -- the dry run wants to persist `t`: then `t` is not marked, the worlds agree, and the real build persists it as well
         exfalso
         rw [hw1] at hpD
-        obtain ⟨hpm, hall, v, hv, hcv⟩ := (persistRes_persisted_iff P g w spec).1 hpD
-        by_cases hf : cfgR.force = true
-        · rw [hpers hf spec hspec] at hpm; cases hpm
-        · have hf' : cfgR.force = false := by simpa using hf
-          by_cases hnw : spec.id ∈ sd1.wbeMarks
-          · -- all nodes still exist in the real build; nothing can be "changed" there, so the scan is quiet
-            have hallR : ∀ v, v ∈ neighbours g spec.id → (stateOf P s1.w v).isSome = true := by
-              intro v hv
-              refine stateOf_mono (w1 := w) ?_ v (hall v hv)
-              intro n hn
-              have := R1.fsMono n (by rw [z6]; exact hn)
-              exact this
-            have hnoch : ∀ v, v ∈ neighbours g spec.id → hasChanged s1.w spec.id v (stateOf P s1.w v) = false := by
-              intro v hv
-              cases hc : hasChanged s1.w spec.id v (stateOf P s1.w v)
-              · rfl
-              · have : persistRes P g s1.w spec = .persisted :=
-                  (persistRes_persisted_iff P g s1.w spec).2 ⟨hpm, hallR, v, hv, hc⟩
-                rw [this] at hpR; cases hpR
-            rw [hid] at hallR hnoch
-            have := scan_unchanged (P := P) (g := g) (w := s1.w) (t := t) (neighbours g t) hallR hnoch
-            rw [hf'] at hscanR
-            rw [this] at hscanR
-            cases hscanR
-          · have hag := DI hnw
-            rw [persistRes_congr (hid ▸ hag), hpD] at hpR
-            cases hpR
+        have hnw : spec.id ∉ sd1.wbeMarks := ((persistRes_persisted_iff P g sd1.wbeMarks w spec).1 hpD).1.2
+        have hag := DI hnw
+        rw [hwbeR, persistRes_congr (hid ▸ hag), ← persistRes_wbe_irrel hnw, hpD] at hpR
+        cases hpR
       · rw [hc]
         unfold execRes
         by_cases hnw : spec.id ∈ sd1.wbeMarks
@@ -540,7 +528,6 @@ build from the same world. -/
 theorem build_Q {F : BodyFn} {P : Project} {cfg : Cfg} {w : World} {dp rp : List Nat} {d r : Result}
     (hreal : cfg.dry = false) (hmf : cfg.maxFail = none)
     (wf : ∀ t, t ∈ P.tasks → ∀ u, u ∈ P.tasks → t.src ∉ u.prods)
-    (hpers : cfg.force = true → ∀ t, t ∈ P.tasks → t.persist = false)
     (hd : build F P { cfg with dry := true } w dp = .ok d) (hc : d.complete = true)
     (hr : build F P cfg w rp = .ok r) :
     ∀ t, t ∈ rp →
@@ -575,7 +562,7 @@ theorem build_Q {F : BodyFn} {P : Project} {cfg : Cfg} {w : World} {dp rp : List
         simpa using hc
       obtain ⟨pre, post, hp⟩ := List.append_of_mem ht
       have := superset_key (cfgR := cfg) (cfgD := { cfg with dry := true }) _ rfl hdag (hcongr ▸ hdag) hso hreal rfl rfl
-        hloopD hloopR hact wf hpers pre.length pre t post hp rfl
+        hloopD hloopR hact wf pre.length pre t post hp rfl
       unfold Q at this
       rw [hdrep, hrrep, hrlog]
       exact this
